@@ -76,4 +76,10 @@ def maxByGet (n : Nat) (get : Nat → Outcome Word) : Outcome (Option Word) :=
       | none => some x
       | some a => some (if a ≤ x then x else a))) none
 
+/-- `a.iter().cloned().max()` on a `Vec<u64>` -/
+def arrMaxW (a : Array Word) : Option Word :=
+  a.foldl (fun (acc : Option Word) x => match acc with
+    | none => some x
+    | some y => some (if y ≤ x then x else y)) none
+
 end Sds.Generated
